@@ -69,14 +69,30 @@ func varyNames(o Obs) (names map[string]bool, star bool) {
 	return
 }
 
+// isSubsequence: the Vary VALUES set earlier are preserved, in order. Values are the comma-separated members of the
+// field (a field line may be re-rendered - two lines folded into one, a space dropped after a comma - without any
+// value being lost; the statement speaks of values, and HTTP treats the renderings alike), compared byte for byte.
 func isSubsequence(sub, full []string) bool {
+	a, b := varyMembers(sub), varyMembers(full)
 	i := 0
-	for _, f := range full {
-		if i < len(sub) && sub[i] == f {
+	for _, f := range b {
+		if i < len(a) && a[i] == f {
 			i++
 		}
 	}
-	return i == len(sub)
+	return i == len(a)
+}
+
+func varyMembers(lines []string) []string {
+	var out []string
+	for _, line := range lines {
+		for _, m := range strings.Split(line, ",") {
+			if m = strings.Trim(m, " \t"); m != "" {
+				out = append(out, m)
+			}
+		}
+	}
+	return out
 }
 
 var c10Mutable = []string{hOrigin, hACRM, hACRH, hACRPN, "Referer", "X-Unrelated", "Authorization", "Cookie"}
